@@ -168,6 +168,7 @@ struct Fd {
     read: bool,
     write: bool,
     last_eintr: bool,
+    watched: bool,
 }
 
 /// Completion codes that go into the schedule hash.
@@ -240,6 +241,8 @@ struct Inner {
     max_file: u64,
     storage_bytes: usize,
     open_high_water: usize,
+    watch: Option<Vec<u8>>,
+    watch_pos: u64,
 }
 
 pub struct SimFs {
@@ -451,6 +454,8 @@ impl SimFs {
                 max_file: MAX_FILE,
                 storage_bytes: 0,
                 open_high_water: 0,
+                watch: None,
+                watch_pos: 0,
             }),
         })
     }
@@ -502,6 +507,17 @@ impl SimFs {
 
     pub fn stats<R>(&self, f: impl FnOnce(&Stats) -> R) -> R {
         f(&self.inner.borrow().stats)
+    }
+
+    /// Remember how far reads of `path` have got (used to name the chunk in flight).
+    pub fn watch(&self, path: &str) {
+        let mut i = self.inner.borrow_mut();
+        i.watch = Some(Self::key(path));
+        i.watch_pos = 0;
+    }
+
+    pub fn watch_pos(&self) -> u64 {
+        self.inner.borrow().watch_pos
     }
 
     pub fn open_fds(&self) -> usize {
@@ -756,9 +772,11 @@ impl Backend for SimFs {
         };
         let fd = i.next_fd;
         i.next_fd += 1;
+        let watched = i.watch.as_deref() == Some(&key[..]);
         i.fds.insert(
             fd,
             Fd {
+                watched,
                 path: key,
                 data,
                 pos: 0,
@@ -849,6 +867,10 @@ impl Backend for SimFs {
         let f = i.fds.get_mut(&fd).unwrap();
         f.pos += n as u64;
         f.last_eintr = false;
+        if f.watched {
+            let p = f.pos;
+            i.watch_pos = p;
+        }
         if short && blen <= 16 {
             i.stats.split_small += 1;
         }
@@ -1095,7 +1117,9 @@ impl Backend for SimFs {
             return Ok(());
         }
         let mut cur: Vec<u8> = Vec::new();
-        for c in bytes.split(|b| *b == b'/').filter(|c| !c.is_empty()) {
+        let comps: Vec<&[u8]> = bytes.split(|b| *b == b'/').filter(|c| !c.is_empty()).collect();
+        let n_comps = comps.len();
+        for (ci, c) in comps.into_iter().enumerate() {
             if c == b"." {
                 continue;
             }
@@ -1116,7 +1140,7 @@ impl Backend for SimFs {
                 0 => {}
                 1 => {
                     // a file in the way: mkdir gives EEXIST for the last component, ENOTDIR beyond
-                    let last = cur.len() == SimFs::key(&lossy(bytes)).len();
+                    let last = ci + 1 == n_comps;
                     i.done(Call::CreateDirAll, Done::NaturalErr, what);
                     return Err(if last { eexist() } else { enotdir() });
                 }
